@@ -4,6 +4,10 @@ def run(tier, a=None):
     specs += [{'src': 'h_c06.cpp', 'defs': ['TAG=' + t, 'ZERO_ROT'], 'filter': 'c06_(ljac_ode|adj_ode|rjac|inverses|adjexp).*'} for t in tags(tier) if not t.startswith('R')]
     tr = [{'src': 'h_trunc.cpp', 'defs': ['TAG=' + t], 'filter': 'tr_jacs.*'} for t in tags(tier) if not t.startswith('R')]
     cd = [{'src': 'h_cond.cpp', 'defs': ['TAG=' + t], 'filter': 'cond_jacs.*'} for t in ('SE2t', 'SO3t', 'SE3t')]
+    import props.common as pc, props.common2 as pc2
+    _o = pc.opts
+    pc.opts = lambda tier, a=None: dict(_o(tier, a), nonfinite_check=True)
+    pc2.opts = pc.opts
     return combined('C06', tier, a, specs, tr,
         'EXACT (generic branches, and Taylor branches at exactly zero rotation with symbolic linear parts): smallAdj(t)s = vee[hat t,hat s]; hat(Adj(X)s) M(X) = M(X) hat(s); Adj(XY)=Adj(X)Adj(Y); ljac(t)+d/ds ljac(st)|_1 = Adj(exp t) (ODE characterisation of the series, derivative via dual numbers through the real ljac); d/ds Adj(exp(st)) = smallAdj(t) Adj(exp(st)); rjac(t)=ljac(-t); rjacinv*rjac = I, ljacinv*ljac = I (rotation below pi); Adj(exp t) rjac = ljac. TRUNC: rjac/ljac/rjacinv/ljacinv on the Taylor region are within 1e-6*max(1,B) of the generic closed forms. COND-lite: on the generic branches the first-order amplification of libm rounding errors into every entry of rjac/ljac/rjacinv/ljacinv is bounded by the solver per decade of the rotation magnitude.',
         ['generic branches: no magnitude bound', 'inverse Jacobians: rotation magnitude below pi', 'Taylor region: linear components bounded by B in {1,1e6}, tolerance 1e-6*max(1,B)', 'COND-lite: amplification of libm rounding errors (2u relative on sin/cos/sqrt results) bounded by 1e-6 per decade of the rotation magnitude in (1.5e-7, 1]; refuted bounds are reported only when the double build reproduces a relative error above 1e-6 against a 60-digit evaluation', 'groups: ' + ','.join(tags(tier))], cond_specs=cd)
